@@ -193,7 +193,93 @@ func judged(c Case) *ev.Verdict {
 	return oracle(c)
 }
 
+// ---- the same textual defect in a text without and with `# comment`s at its line ends
+
+// DCase: a model printed canonically (annotations as `// ...`) without comments and with `# c` comments
+// at line ends - the two texts have the same lines. One defect is applied to both at the same line:
+// a line inserted after it (an annotation on a line of its own, a second rule annotation, garbage) or
+// the text cut off after it. Comments are presentation: both texts must get the same verdict and code.
+type DCase struct {
+	P      *model.Project `json:"project"`
+	Seq    []int          `json:"seq"`
+	Line   int            `json:"line"`
+	Defect int            `json:"defect"`
+}
+
+var lineDefects = []string{"// extra note", "// {min: 0}", "/* {optional: true} */", "x", "// {min: 0} - and a note", "}", "  # only a comment", ""}
+
+func defectOracle(c DCase) *ev.Verdict {
+	if c.P == nil || c.P.Root == nil {
+		return nil
+	}
+	plain := c.P.Text(&model.Layout{Seq: c.Seq})
+	noted := c.P.Text(&model.Layout{Seq: c.Seq, Comments: 1})
+	la, lb := strings.Split(plain.Root, "\n"), strings.Split(noted.Root, "\n")
+	if len(la) != len(lb) || len(la) == 0 {
+		ev.Excluded("defects", "the commented text has other lines than the plain one")
+		return nil
+	}
+	differs := false
+	for i := range la {
+		if la[i] != lb[i] {
+			differs = true
+			if !strings.HasPrefix(lb[i], la[i]) {
+				ev.Excluded("defects", "a comment is not at a line end")
+				return nil
+			}
+		}
+	}
+	if !differs {
+		return nil
+	}
+	i := c.Line % len(la)
+	d := lineDefects[c.Defect%len(lineDefects)]
+	apply := func(lines []string) string {
+		out := append([]string{}, lines[:i+1]...)
+		if d != "" {
+			out = append(out, d)
+			out = append(out, lines[i+1:]...)
+		}
+		return strings.Join(out, "\n")
+	}
+	pa, pb := plain, noted
+	pa.Root, pb.Root = apply(la), apply(lb)
+	oa, ob := sut.Observe(pa), sut.Observe(pb)
+	for _, o := range []*sut.Outcome{oa, ob} {
+		if len(o.Escapes) > 0 {
+			e := o.Escapes[0]
+			return ev.V("panic:"+e.Op+":"+e.Frame, "%s panicked: %s\n%s", e.Op, e.Value, pb.Root)
+		}
+	}
+	if la[i] != lb[i] {
+		ev.NonTrivial("defects", pb.Root)
+		ev.Class("defects", fmt.Sprintf("defect %q after a commented line: code %d", d, sut.CodeOf(oa.Check)))
+		if ev.WantSample("defects") {
+			ev.Sample("defects", map[string]string{"plain": pa.Root, "commented": pb.Root})
+		}
+	}
+	if sut.CodeOf(oa.Check) != sut.CodeOf(ob.Check) {
+		return ev.V(fmt.Sprintf("defect-under-comments:code-%d-vs-%d", sut.CodeOf(oa.Check), sut.CodeOf(ob.Check)), "the same defect (%q after line %d) gives %v without and %v with `# c` comments at line ends\n--- plain\n%s\n--- commented\n%s", d, i+1, oa.Check, ob.Check, pa.Root, pb.Root)
+	}
+	if oa.Check == nil {
+		if what, detail := firstDiff(oa, ob); what != "" {
+			return ev.V("defect-under-comments:"+what, "texts that differ only in `# c` comments differ in %s\n--- plain\n%s\n--- commented\n%s", detail, pa.Root, pb.Root)
+		}
+	}
+	return nil
+}
+
+func TestPropDefectsUnderComments(t *testing.T) {
+	registerAll()
+	ev.Rapid(t, "defects", ev.N(3000, 20000), func(t *rapid.T) DCase {
+		p := genProject(t)
+		addNotes(t, p.Root)
+		return DCase{P: p, Seq: rapid.SliceOfN(rapid.IntRange(0, 7), 4, 12).Draw(t, "seq"), Line: rapid.IntRange(0, 40).Draw(t, "line"), Defect: rapid.IntRange(0, len(lineDefects)-1).Draw(t, "defect")}
+	}, defectOracle)
+}
+
 func registerAll() {
+	ev.Register("defects", defectOracle)
 	ev.Register("models", judged)
 	ev.Register("corpus", corpusOracle)
 	ev.Register("feature-table", oracle)
